@@ -4,7 +4,9 @@ use crate::fw::*;
 use crate::gen::*;
 use crate::notation::*;
 use bp7::bundle::Bundle;
-use bp7::canonical::CanonicalData;
+use bp7::canonical::{new_payload_block, CanonicalData};
+use bp7::dtntime::CreationTimestamp;
+use bp7::flags::BlockControlFlags;
 use bp7::crc::{CrcBlock, CrcValue};
 use bp7::eid::EndpointID;
 use std::convert::TryFrom;
@@ -202,6 +204,59 @@ fn mutate_after_crc(rng: &mut Rng, b: &mut Bundle) {
     }
 }
 
+/// Bundles whose freshly computed CRC values are special bit patterns (all zero, all one, equal bytes,
+/// byte-palindromes): found by search over the sequence number (CRC-16) and by solving the GF(2)-linear
+/// system over four payload bytes (CRC-32C). Independent CRC routines (cborx) are used for the search.
+pub fn special_crc_bundles(rng: &mut Rng) -> Vec<Bundle> {
+    let mut out = vec![];
+    // CRC-16 on the primary block: search the sequence number
+    for target in [0x0000u16, 0xffff, 0xabab, 0x0100] {
+        let mut b = gen_bundle(rng, &Opts { wf: true, max_blocks: 2 });
+        b.primary.crc = CrcValue::Crc16Empty;
+        let t = b.primary.creation_timestamp.dtntime();
+        for s in 0..400_000u64 {
+            b.primary.creation_timestamp = CreationTimestamp::with_time_and_seq(t, s);
+            let mut p = b.primary.clone();
+            p.crc = CrcValue::Crc16Empty;
+            let enc = serde_cbor::to_vec(&p).unwrap();
+            if crate::cborx::crc16_x25(&enc) == target { out.push(b.clone()); break; }
+        }
+    }
+    // CRC-32C on a payload block: four free bytes at the end of the payload, solved linearly
+    for target in [0x0000_0000u32, 0xffff_ffff, 0xabcd_cdab, 0x0000_0001] {
+        let mut b = gen_bundle(rng, &Opts { wf: true, max_blocks: 2 });
+        let pl = rng.below(12) as usize;
+        let prefix = rng.bytes(pl);
+        let enc = |x: u32| -> Vec<u8> {
+            let mut d = prefix.clone(); d.extend_from_slice(&x.to_be_bytes());
+            let mut c = new_payload_block(BlockControlFlags::empty(), d);
+            c.crc = CrcValue::Crc32Empty;
+            serde_cbor::to_vec(&c).unwrap()
+        };
+        let c0 = crate::cborx::crc32c(&enc(0));
+        // columns d_i = crc(E(e_i)) ^ crc(E(0)); solve sum x_i d_i = target ^ c0
+        let mut rows: Vec<(u32, u32)> = (0..32).map(|i| (crate::cborx::crc32c(&enc(1 << i)) ^ c0, 1u32 << i)).collect();
+        let mut want = target ^ c0;
+        let mut x = 0u32;
+        for bit in (0..32).rev() {
+            if let Some(pos) = rows.iter().position(|r| r.0 >> bit & 1 == 1) {
+                let piv = rows.remove(pos);
+                for r in rows.iter_mut() { if r.0 >> bit & 1 == 1 { r.0 ^= piv.0; r.1 ^= piv.1; } }
+                if want >> bit & 1 == 1 { want ^= piv.0; x ^= piv.1; }
+            }
+        }
+        if want == 0 && crate::cborx::crc32c(&enc(x)) == target {
+            let mut d = prefix.clone(); d.extend_from_slice(&x.to_be_bytes());
+            let mut c = new_payload_block(BlockControlFlags::empty(), d);
+            c.crc = CrcValue::Crc32Empty;
+            b.canonicals.retain(|k| k.block_type != 1);
+            b.canonicals.push(c);
+            out.push(b);
+        }
+    }
+    out
+}
+
 pub fn generate(prop: &str, ctx: &mut Ctx, rep: &mut Report, emit: &mut dyn FnMut(&mut Ctx, &mut Report, String)) {
     let mut rng = Rng::new(ctx.seed ^ 0xC01);
     let op = match prop { "C02" => "spec.enc", "C03" => "spec.dec", "C15" => "json.enc", _ => "enc" };
@@ -222,6 +277,9 @@ pub fn generate(prop: &str, ctx: &mut Ctx, rep: &mut Report, emit: &mut dyn FnMu
             let mut c = b.clone();
             if let Some(bytes) = no_panic(|| c.to_cbor()) { emit(ctx, rep, format!("dec {}", hex(&bytes))); }
         }
+    }
+    if prop == "C04" || prop == "C01" {
+        for b in special_crc_bundles(&mut rng) { emit(ctx, rep, format!("{} {}", op, show_bundle(&b))); }
     }
     if prop == "C04" {
         for len in 0..ctx.n(300, 4097) {
